@@ -5,7 +5,11 @@ compiled into driver.cxx; every operation it makes on its mutex and condition va
 wrappers of the pthread calls (static libstdc++, no source hook) which also inject seeded delays; the log is translated
 segment by segment into model events and fed to the acceptor extracted from the model; the observable outcome (each
 accepted task ran exactly once, wait() complete, destructor drains, futures carry result or exception) is re-checked
-on the raw log independently of the model."""
+on the raw log independently of the model.
+Liveness (C29LiveModel.v): deadlock freedom / termination / no lost wake-up are proved on a refinement of the same
+transition system; which variant of it the code is (addTask notifies one or all) is read off the real traces, and the
+lost wake-up that the model exhibits for notify_one is hunted on the real ThreadPool (wait() hammered by one client
+while another one calls addTask); ThreadPool(0) is run and compared with what the model says."""
 import hashlib, os, threading
 from concurrent.futures import ThreadPoolExecutor
 from vlib import guarded_main
@@ -73,6 +77,7 @@ def translate(lines):
             evs.append((int(t[0]), t[1], int(t[2])))
     out = []   # [pos, fields...]  (mutable lists so that late information can be filled in)
     ths = {}
+    add_notify_kinds = set()
     for pos, (tid, kind, arg) in enumerate(evs):
         T = ths.setdefault(tid, Th())
         w = worker.get(tid)
@@ -90,6 +95,8 @@ def translate(lines):
             if T.inseg:
                 T.notify = T.notify or (kind == "NOTIFY_ALL")
             elif T.pending_out is not None:
+                if T.pending_out[1] == "A":
+                    add_notify_kinds.add(kind)
                 if T.pending_out[1] == "A" or kind == "NOTIFY_ALL":
                     T.pending_out[-1] = 1
             else:
@@ -220,7 +227,20 @@ def translate(lines):
         if f[2] != "ok":
             bad.append("future of task %s (kind %s): %s" % (f[0], f[1], f[2]))
             break
-    facts = {"tasks": len(add_ret), "rejected": len(add_throw), "waits": len(waits), "sleeps": sum(1 for e in evs if e[1] == "CVSLEEP"),
+    # who sleeps in c.wait at the end of the log, which notifications are still to be issued
+    last_cv, in_wait = {}, set()
+    for (tid, kind, arg) in evs:
+        if kind in ("CVSLEEP", "CVWAKE"):
+            last_cv[tid] = kind
+        elif kind == "WAIT_CALL":
+            in_wait.add(tid)
+        elif kind == "WAIT_RET":
+            in_wait.discard(tid)
+    asleep = sorted(t for t, k in last_cv.items() if k == "CVSLEEP")
+    unnotified = sum(1 for T in ths.values() if T.pending_out is not None and T.pending_out[1] in ("A", "S") and T.pending_out[-1] == 0)
+    facts = {"add_notify_kinds": sorted(add_notify_kinds), "asleep": asleep, "worker_tids": sorted(worker), "in_wait": sorted(in_wait),
+             "unnotified": unnotified, "begins": sum(len(v) for v in begins.values()), "futures_raw": futures,
+             "tasks": len(add_ret), "rejected": len(add_throw), "waits": len(waits), "sleeps": sum(1 for e in evs if e[1] == "CVSLEEP"),
              "events": len(evs), "hang": hang, "futures": len(futures), "bad": bad, "joined": dtor_ret is not None}
     return model, facts
 
@@ -234,9 +254,14 @@ def main(c):
               "(statically linked libstdc++), filtering on the addresses of ThreadPool::m and ThreadPool::c; the log-order argument at the top of driver.cxx",
               "python translation of the raw log into model events, one per lock-protected segment (props/C29/check.py translate)",
               "std::mutex / std::condition_variable semantics as modelled: segments under the mutex are atomic, a wait releases the mutex and may wake spuriously")
+    LOST = "liveness:addTask-notify_one-consumed-by-wait"
+    special = {}   # scenario name -> "hunt" | "pool0-drop" | "pool0-wait" | "pool0-emptywait"
+    hunts = []
     if c.replay:
         r = c.replay["replay"]
         scen = [(r.get("scenario_name", "replay"), r["workers"], r["scenario"])]
+        if r.get("special"):
+            special[scen[0][0]] = r["special"]
     else:
         scen = [("fixed-1w", 1, "workers 1\nseed 1\nperturb 0\nclient a:0:v a:0:x a:0:u w a:50:n2 w\nfinal wait\n"),
                 ("fixed-4w-drain", 4, "workers 4\nseed 2\nperturb 50\nclient " + " ".join(["a:100:v"] * 24) + "\nfinal nowait\n"),
@@ -248,6 +273,20 @@ def main(c):
         for i in range(c.pick(1, 4)):
             nw, txt = gen_scenario(c.rng, big=c.pick(400, 2500))
             scen.append(("big-%d" % i, nw, txt))
+        # ThreadPool(0): the model says (C29_pool0_*) that nothing ever runs, the destructor abandons the queue (broken
+        # futures), wait() after an addTask sleeps for ever, wait() on a fresh pool returns
+        for nm, txt in (("pool0-drop", "workers 0\nseed 5\nperturb 0\nclient a:0:v a:0:x a:0:u\nfinal nowait\nstall 1000\n"),
+                        ("pool0-wait", "workers 0\nseed 6\nperturb 0\nclient a:0:v w\nfinal nowait\nstall 1000\n"),
+                        ("pool0-emptywait", "workers 0\nseed 7\nperturb 0\nclient w\nfinal wait\nstall 1000\n")):
+            scen.append((nm, 0, txt))
+            special[nm] = nm
+        # hunt of the lost wake-up (C29_notify_one_loses_a_wakeup): one client hammers wait() while another one calls
+        # addTask and waits for the future, 30 times; with 1..3 workers; `align`: the wrapper of pthread_cond_signal holds the
+        # notification back (<= 2 ms) until the wait() thread enters pthread_cond_wait, so that the two really race (delays only).  Run in batches until one run hangs.
+        for i in range(c.pick(48, 120)):
+            nw = 1 + (i % 3 if i % 4 == 3 else 0)
+            hunts.append(("hunt-%d" % i, nw, "workers %d\nseed %d\nperturb 0\nalign %d\nclient W:3000\nclient s:%d %s\nfinal nowait\nstall 700\n"
+                          % (nw, c.rng.randrange(1, 1 << 30), (0, 50, 300)[i % 3], 20 + 3 * (i % 40), " ".join(["a:0:v g"] * 30))))
     results = {}
     lock = threading.Lock()
 
@@ -258,7 +297,19 @@ def main(c):
 
     with ThreadPoolExecutor(max_workers=3) as ex:
         list(ex.map(run_one, range(len(scen))))
-    c.log("%d scenarios run on the real ThreadPool" % len(scen))
+    nhunt = 0
+    while hunts:
+        batch, hunts = hunts[:6], hunts[6:]
+        first = len(scen)
+        for h in batch:
+            scen.append(h)
+            special[h[0]] = "hunt"
+        nhunt += len(batch)
+        with ThreadPoolExecutor(max_workers=2) as ex:     # few at a time: the race needs the two clients really running
+            list(ex.map(run_one, range(first, len(scen))))
+        if any(results[ix][0] == 7 for ix in range(first, len(scen))):
+            break
+    c.log("%d scenarios run on the real ThreadPool (%d of them hunting the lost wake-up)" % (len(scen), nhunt))
     text, trans = "", {}
     for ix, (name, nw, txt) in enumerate(scen):
         rc, out, err = results[ix]
@@ -276,6 +327,7 @@ def main(c):
         if len(t) >= 2 and t[0] in ("ACCEPT", "REJECT"):
             verdicts[int(t[1])] = (t[0], t[2] if len(t) > 2 else "")
     accepted = 0
+    notify_kinds, lost_seen, hunt_hangs = set(), 0, 0
     tot = {"tasks": 0, "sleeps": 0, "events": 0, "waits": 0, "rejected": 0}
     for ix, (model, facts, raw) in trans.items():
         name, nw, txt = scen[ix]
@@ -285,7 +337,10 @@ def main(c):
             tot[k] += facts[k]
         v = verdicts.get(ix)
         rawl = raw.split("\n")
-        rep = {"scenario_name": name, "workers": nw, "scenario": txt, "model_events": model[:600], "raw_log": rawl[:900],
+        sp = special.get(name)
+        notify_kinds.update(facts["add_notify_kinds"])
+        rep = {"scenario_name": name, "workers": nw, "scenario": txt, "special": sp, "model_events": model[-600:] if sp == "hunt" else model[:600],
+               "raw_log": rawl[-900:] if sp == "hunt" else rawl[:900],
                "how": "props/C29/driver < scenario ; log -> translate -> acceptor extracted from C29Model.v"}
         if ix % 8 == 0:
             c.sample({"scenario": name, "workers": nw, "text": txt[:400], "model_events_head": model[:30], "facts": {k: facts[k] for k in ("tasks", "waits", "sleeps", "events", "rejected")},
@@ -298,12 +353,38 @@ def main(c):
         else:
             accepted += 1
             m = dict(x.split("=") for x in v[1].split())
-            if not facts["hang"] and (int(m["submitted"]) != facts["tasks"] or (facts["joined"] and int(m["finished"]) != facts["tasks"])):
+            if nw > 0 and not facts["hang"] and (int(m["submitted"]) != facts["tasks"] or (facts["joined"] and int(m["finished"]) != facts["tasks"])):
                 c.report("count:" + name, "scenario %s: model state (%s) and real run (%d accepted tasks) disagree" % (name, v[1], facts["tasks"]), rep, True)
-        for b in facts["bad"][:1]:
-            c.report("outcome:" + name, "scenario %s (%d workers): %s" % (name, nw, b), rep, True)
-        if facts["hang"]:
-            c.notes.append("scenario %s did not finish within the watchdog delay; its partial log was judged by the acceptor only" % name)
+            # a run that stopped for ever: is it the stuck state of the live model (C29_notify_one_loses_a_wakeup)?  every worker
+            # asleep in c.wait at the top of its loop, every thread inside wait() asleep, no notification left to issue, and a
+            # task in the queue (model state after the accepted trace)
+            if nw > 0 and facts["hang"]:
+                pattern = (int(m["queue"]) > 0 and set(facts["worker_tids"]) <= set(facts["asleep"]) and facts["in_wait"]
+                           and set(facts["in_wait"]) <= set(facts["asleep"]) and facts["unnotified"] == 0)
+                if pattern:
+                    lost_seen += 1
+                    hunt_hangs += 1 if sp == "hunt" else 0
+                    if lost_seen == 1:
+                        c.report(LOST, "ThreadPool deadlocks (lost wake-up): scenario %s, %d worker(s): a client thread calls wait() between the unlock "
+                                 "and the c.notify_one() of another client's addTask; the notification is consumed by the wait() call (same condition "
+                                 "variable), the worker(s) stay asleep with %s task(s) queued, wait() never returns, the task never runs; last events: %s"
+                                 % (name, nw, m["queue"], " | ".join(rawl[-12:-1])), rep, True)
+                else:
+                    # as before this round: never a verdict by itself (a loaded machine can starve a run); the trace was judged above
+                    c.notes.append("scenario %s did not finish in time (model state %s, asleep threads %s, workers %s, in wait() %s); its partial log "
+                                   "was judged by the acceptor only" % (name, v[1], facts["asleep"], facts["worker_tids"], facts["in_wait"]))
+        if nw == 0:
+            # ThreadPool(0) against C29_pool0_nothing_runs / _wait / _wait_deadlocks / _destructor_abandons_tasks
+            broken = [f for f in facts["futures_raw"] if f[2].startswith("bad-future-threw") and "roken" in " ".join(f[2:])]
+            want = {"pool0-drop": (not facts["hang"] and facts["begins"] == 0 and facts["joined"] and len(broken) == facts["tasks"] == 3),
+                    "pool0-wait": (facts["hang"] and facts["begins"] == 0 and len(facts["in_wait"]) == 1 and set(facts["in_wait"]) <= set(facts["asleep"])),
+                    "pool0-emptywait": (not facts["hang"] and facts["waits"] == 2 and facts["joined"])}.get(sp, True)
+            if not want:
+                c.report("pool0:" + name, "ThreadPool(0), scenario %s: the real pool does not behave as the model says (hang=%s, task bodies started=%d, "
+                         "futures=%s, threads in wait()=%s, asleep=%s)" % (name, facts["hang"], facts["begins"], facts["futures_raw"], facts["in_wait"], facts["asleep"]), rep, True)
+        else:
+            for b in facts["bad"][:1]:
+                c.report("outcome:" + name, "scenario %s (%d workers): %s" % (name, nw, b), rep, True)
     c.coverage["traces_validated_against_impl"] = accepted
     c.coverage["rule"] = ("4 fixed + seeded random scenarios: 1-16 workers, 1-4 client threads each running 1-14 operations (addTask of value / throwing / void / "
                           "task-adding tasks, wait(), sleeps), destructor with or without a final wait(), random delays injected at every mutex / condition-variable "
@@ -312,7 +393,19 @@ def main(c):
     c.notes.append("totals over this run: %s" % tot)
     c.notes.append("no source hook needed: observation by link-time wrapping of the pthread calls of the statically linked libstdc++")
     c.log("traces judged: %d accepted" % accepted)
-    res = c.coq(MODEL + ["C29Proofs.v", "Properties_C29.v"], timeout=900)
+    # which variant of the live model the code is: the notification issued by addTask after its unlock
+    code_na = notify_kinds == {"NOTIFY_ALL"}
+    if notify_kinds and not code_na and notify_kinds != {"NOTIFY_ONE"}:
+        c.report("addtask-notification", "addTask issues %s after its locked segment: neither variant of the live model" % sorted(notify_kinds), {}, False)
+    if not c.replay:
+        if code_na and lost_seen == 0:
+            c.notes.append("addTask notifies all (variant na = true of the live model): deadlock freedom for any number of clients; %d hunting runs, none hung" % nhunt)
+        elif not code_na and hunt_hangs == 0:
+            c.notes.append("addTask calls notify_one; the lost wake-up of C29_notify_one_loses_a_wakeup was NOT reproduced in this run (%d hunting runs)" % nhunt)
+    c.coverage["live_model_variant"] = "addTask notifies all" if code_na else "addTask notifies one"
+    c.coverage["lost_wakeup_hunt"] = {"runs": nhunt, "hung_in_the_stuck_state_of_the_model": hunt_hangs}
+    res = c.coq(MODEL + ["C29Proofs.v", "Properties_C29.v", "C29LiveModel.v", "C29LiveProofs.v", "Properties_C29_live.v",
+                         "Properties_C29_live_fixed.v" if code_na else "Properties_C29_live_pinned.v"], timeout=900)
     if not res.ok:
         c.coq_failures(res)
 
